@@ -93,6 +93,80 @@ def member_writers(prog, cls_suffix, member):
     return direct
 
 
+
+def r_eof_true_end(prog, rep, rule_id="R-EOF-TRUE-END"):
+    # ---------------------------------------------------------------- char fetch
+    r = rep.rule(rule_id,
+                 "a character-fetch function that returns int with -1 as end sentinel never returns a sign-extended "
+                 "char (byte 0xFF would read as end-of-file)", floor=2)
+    END_EQ = ("(buffer.end() == bufferPos)", "(bufferPos == buffer.end())")
+
+    def leaves(f, e, guards=(), depth=0):
+        """the expressions a returned value can come from: arms of ?: (with the condition and arm taken), a local that is initialised
+        once and never reassigned (through its initialiser)."""
+        e0 = e
+        while e0 is not None and e0.get("k") in ("paren", "cleanups"):
+            e0 = e0.child("e")
+        if e0 is None:
+            return []
+        inner = strip_casts(e0)
+        if inner is not None and inner.get("k") == "cond":
+            # an implicit conversion applied to the whole ?: applies to each arm
+            out = []
+            for arm, pol in (("a", True), ("b", False)):
+                for leaf, g in leaves(f, inner.child(arm), guards + ((inner.child("c"), pol),), depth):
+                    out.append((leaf if inner is e0 else ("outer-cast", e0, leaf), g))
+            return out
+        if inner is not None and inner.get("k") == "ref" and inner.get("did") is not None and depth < 3:
+            inits = [f.nodes[v["init"]] for d in f.nodes if d.get("k") == "decl" for v in d.get("vars", []) if v.get("did") == inner["did"] and "init" in v]
+            writes = [n for n in f.nodes if n.get("k") == "bin" and n.get("op", "").endswith("=") and n["op"] not in ("==", "!=", "<=", ">=") and
+                      strip_casts(n.child("l")) is not None and strip_casts(n.child("l")).get("did") == inner["did"]]
+            if len(inits) == 1 and not writes and f.db_types[inner["ct"]] == "int" if "ct" in inner else False:
+                return leaves(f, inits[0], guards, depth + 1)
+        return [(e0, guards)]
+
+    def sign_extends(leaf):
+        if isinstance(leaf, tuple):
+            _tag, outer, inner = leaf
+            return (outer.get("k") == "cast" and outer.get("ck") == "IntegralCast" and outer.tname("fromct") in ("char", "signed char")) or sign_extends(inner)
+        return leaf.get("k") == "cast" and leaf.get("ck") == "IntegralCast" and leaf.tname("fromct") in ("char", "signed char")
+
+    def is_sentinel(leaf):
+        return not isinstance(leaf, tuple) and is_minus_one(leaf)
+
+    fetchers = 0
+    for f in prog.functions.values():
+        if not qmatch(f.cls, "llbuild::ninja::Lexer") or f.ret_type() != "int" or f.is_lambda:
+            continue
+        rets = [n for n in f.nodes if n.get("k") == "return" and "e" in n]
+        lv = [(x, leaf, g) for x in rets for leaf, g in leaves(f, x.child("e"))]
+        if not any(is_sentinel(leaf) for _x, leaf, _g in lv):
+            continue
+        fetchers += 1
+        bad = [x for x, leaf, _g in lv if sign_extends(leaf)]
+        short = f.name.split("::")[-1]
+        site = "%s|return" % short
+        if bad:
+            r.violation(site, "returns a plain char converted to int beside the -1 sentinel: %s" % expr_str(bad[0]), f, bad[0])
+        else:
+            r.ok(site, "%d returns, %d value sources" % (len(rets), len(lv)), f)
+        # the -1 itself is returned only where bufferPos == buffer.end() is established (by a branch, or by the ?: that selects it)
+        if short in ("peekNextChar", "getNextChar"):
+            bf = BranchFacts(f)
+            for x, leaf, g in lv:
+                if not is_sentinel(leaf):
+                    continue
+                st = set(bf.at_node(x) or frozenset())
+                for c, pol in g:
+                    st |= set(cfg.cond_atoms(c, pol))
+                ok = any(a in END_EQ and p for a, p in st) or any(a in ("(buffer.end() != bufferPos)", "(bufferPos != buffer.end())") and not p for a, p in st)
+                r.check(ok, "%s|eof-only-at-end" % short, "", "-1 returned on a path where bufferPos == buffer.end() is not established", f, x)
+    if fetchers < 2:
+        raise AnalysisBroken("R-EOF-TRUE-END: only %d character-fetch functions with a -1 sentinel found (2 confirmed by reading)" % fetchers)
+
+
+
+
 def run(ctx):
     prog, rep = ctx.prog, ctx.report
 
@@ -152,36 +226,7 @@ def run(ctx):
     if total["derefs"] < 15 or total["increments"] < 15:
         raise AnalysisBroken("cursor analysis saw only %s" % total)
 
-    # ---------------------------------------------------------------- char fetch
-    r = rep.rule("R-EOF-TRUE-END",
-                 "a character-fetch function that returns int with -1 as end sentinel never returns a sign-extended "
-                 "char (byte 0xFF would read as end-of-file)", floor=2)
-    for f in prog.functions.values():
-        if not qmatch(f.cls, "llbuild::ninja::Lexer") or f.ret_type() != "int":
-            continue
-        rets = [n for n in f.nodes if n.get("k") == "return" and "e" in n]
-        has_sentinel = any(is_minus_one(x.child("e")) for x in rets)
-        if not has_sentinel:
-            continue
-        bad = []
-        for x in rets:
-            e = x.child("e")
-            if e.get("k") == "cast" and e.get("ck") == "IntegralCast" and e.tname("fromct") in ("char", "signed char"):
-                bad.append(x)
-        site = "%s|return" % f.name.split("::")[-1]
-        if bad:
-            r.violation(site, "returns a plain char converted to int beside the -1 sentinel: %s" % expr_str(bad[0]), f, bad[0])
-        else:
-            r.ok(site, "%d returns" % len(rets), f)
-    # the -1 return itself must be guarded by bufferPos == buffer.end()
-    for name in ("peekNextChar", "getNextChar"):
-        f = prog.fn("Lexer::" + name)
-        bf = BranchFacts(f)
-        for x in f.nodes:
-            if x.get("k") == "return" and "e" in x and is_minus_one(x.child("e")):
-                st = bf.at_node(x) or frozenset()
-                ok = any(a in ("(buffer.end() == bufferPos)", "(bufferPos == buffer.end())") and p for a, p in st)
-                r.check(ok, "%s|eof-only-at-end" % name, "", "-1 returned on a path where bufferPos == buffer.end() is not established", f, x)
+    r_eof_true_end(prog, rep)
 
     # ---------------------------------------------------------------- recursion
     r = rep.rule("R-RECURSION-BOUND",
@@ -605,4 +650,10 @@ VARIANTS = [
          old="    if (node->getType() != llvm::yaml::Node::NK_Mapping) {\n      error(node, \"unexpected top-level node\");\n      return false;\n    }",
          new="    if (!(node->getType() == llvm::yaml::Node::NK_Mapping)) {\n      error(node, \"unexpected top-level node\");\n      return false;\n    }",
          expect=None),
+    dict(name="peek-sign-extends-through-ternary", file="lib/Ninja/Lexer.cpp", old="  if (bufferPos == buffer.end())\n    return -1;\n  return static_cast<unsigned char>(*bufferPos);",
+         new="  return bufferPos == buffer.end() ? -1 : *bufferPos;", expect=("R-EOF-TRUE-END", "peekNextChar|return")),
+    dict(name="benign-peek-as-ternary-with-cast", file="lib/Ninja/Lexer.cpp", old="  if (bufferPos == buffer.end())\n    return -1;\n  return static_cast<unsigned char>(*bufferPos);",
+         new="  return bufferPos == buffer.end() ? -1 : static_cast<unsigned char>(*bufferPos);", expect=None),
+    dict(name="peek-ternary-sentinel-on-wrong-arm", file="lib/Ninja/Lexer.cpp", old="  if (bufferPos == buffer.end())\n    return -1;\n  return static_cast<unsigned char>(*bufferPos);",
+         new="  return bufferPos + 1 == buffer.end() ? -1 : static_cast<unsigned char>(*bufferPos);", expect=("R-EOF-TRUE-END", "eof-only-at-end")),
 ]
